@@ -27,7 +27,7 @@ META = {
 
 HEADS = (('**kern',), ('**kern', '**text'), ('**kern', '**kern'), ('**dynam', '**kern', '**harm'))
 LAYOUTS = []
-COMMENT_PLANS = ((), ('pre',), ('pre', 'pre'), ('in',), ('post',), ('pre', 'in', 'post'), ('in', 'in2', 'post', 'post'))
+COMMENT_PLANS = ((), ('pre',), ('pre', 'pre'), ('in',), ('post',), ('pre', 'in', 'post'), ('in', 'in2', 'post', 'post'), ('dup', 'in', 'dup2'))
 
 
 def load(tier):
@@ -75,12 +75,18 @@ def build(li, plan):
     for p in plan:
         if p == 'pre':
             rows.insert(0, ['!!!pre%d: x' % len([r for r in rows if r[0].startswith('!!!pre')])])
+        elif p == 'dup':
+            rows.insert(0, ['!! ----------'])          # the same comment text occurs again later (dup2)
+            rows.insert(0, ['!!!COM: Bach'])
     hdr = next(i for i, r in enumerate(rows) if r[0].startswith('**'))
     for p in plan:
         if p == 'in':
             rows.insert(hdr + 2, ['!! inner'])
         elif p == 'in2':
             rows.insert(hdr + 4 if hdr + 4 < len(rows) else len(rows) - 1, ['!! inner two'])
+        elif p == 'dup2':
+            rows.append(['!! ----------'])
+            rows.append(['!!!COM: Bach'])
         elif p == 'post':
             rows.append(['!!!post%d: y' % len([r for r in rows if r[0].startswith('!!!post')])])
     return rows
@@ -178,7 +184,7 @@ def _b_body(d, sel, style):
 
 
 # ------------------------------------------------------------------ C17.c comment query with a symbolic key
-COMMENT_DOC = '!!!COM: Bach\n!!!OTL: Title\n!! plain comment\n**kern\n!!!OTL@@DE: Titel\n4c\n!!!C: x\n*-\n!!!COM2: other\n!!!EED: ed\n'
+COMMENT_DOC = '!!!COM: Bach\n!!!OTL: Title\n!! plain comment\n**kern\n!!!OTL@@DE: Titel\n4c\n!!!C: x\n!! plain comment\n*-\n!!!COM2: other\n!!!EED: ed\n!!!COM: Bach\n'
 COMMENT_LINES = [ln for ln in COMMENT_DOC.split('\n') if ln.startswith('!!')]
 
 
@@ -261,7 +267,7 @@ OBLIGATIONS = [
     Ob(id='C17.a', fn=ob_a, title='listing order: leading comments, each spine depth-first left to right, later comments; each cell once',
        shard_of=lambda layout, plan: layout, shards={'quick': 16, 'thorough': 16}, budget_s={'quick': 170, 'thorough': 1800},
        witnesses=[{'layout': 0, 'plan': 5}], min_confirmed=500, enumerated='layout selector, global-comment plan',
-       bounds={'quick': '4 header sets (1-3 spines), operator rows 2/2/1 + 12 curated deep layouts x 7 comment plans (before the header, inside, after the terminators)',
+       bounds={'quick': '4 header sets (1-3 spines), operator rows 2/2/1 + 12 curated deep layouts x 8 comment plans (before the header, inside, after the terminators, repeated texts)',
                'thorough': 'operator rows 3/3/2'}, describe=_desc_a),
     Ob(id='C17.b', fn=ob_b, title='category filter == sub-sequence in the closure; unique = first occurrences; frequencies; encodings',
        shard_of=lambda d, sel, style: sel, shards={'quick': 16, 'thorough': 16}, budget_s={'quick': 170, 'thorough': 1800},
